@@ -43,6 +43,7 @@ MODELS = {
     "B0": {},
     "B1": {"cc": "none", "wgrid": "disc"},
     "B2": {"h": "hd", "filt": "none"},
+    "B3": {"cc": "cl", "e": 1},  # two continuous choices of unequal size + dense and restricted discrete choice
 }
 SOLVE_LETTERS = ["solve(P1)", "solve(P2)", "solve(P1np)", "solve(P1jax)", "solve(M:=P1)", "solve(M:=P3 in place)"]
 SIM_LETTERS = ["sim(P1,S1,0)", "sim(P2,S2,1)", "sim(P1,S2,0)", "sim(P1,S1,1)", "sim(M:=P1,S1,0)", "sim(M:=P3 in place,S1,0)"]
